@@ -57,6 +57,15 @@ func validate(b []byte, upw, opw string) error {
 	})
 }
 
+func validateStrict(b []byte, upw, opw string) error {
+	return guard(func() error {
+		c := model.NewDefaultConfiguration()
+		c.ValidationMode = model.ValidationStrict
+		c.UserPW, c.OwnerPW = upw, opw
+		return api.Validate(bytes.NewReader(b), c)
+	})
+}
+
 type opResult struct {
 	outs     [][]byte
 	upw, opw string
@@ -801,6 +810,201 @@ func runOps(r *vh.Run, name, desc string, doc []byte, e *env, opsList []op, nOps
 	}
 }
 
+// ---------------------------------------------------------------- page-tree matrix
+
+// checkOutputs validates every output relaxed, and strict when every input passed strict.
+func trunc(s string) string {
+	if len(s) > 240 {
+		return s[:240] + "..."
+	}
+	return s
+}
+
+func checkOutputs(r *vh.Run, opName, params string, input map[string]any, res *opResult, strictIn bool) {
+	input["operation"], input["params"] = opName, params
+	r.Count("matrix:" + opName)
+	written := 0
+	for j, out := range res.outs {
+		if len(out) == 0 {
+			continue
+		}
+		written++
+		if err := validate(out, res.upw, res.opw); err != nil {
+			cls := "invalid-output:" + opName
+			if strings.HasPrefix(opName, "merge-zip") && strings.Contains(err.Error(), "missing required resource subdict") {
+				// XRefTable.AppendPages writes the inherited Rotate and MediaBox into the surplus
+				// pages it re-parents, not the inherited /Resources
+				cls += ":inherited-resources-lost"
+			}
+			r.OracleFail(cls, input, fmt.Sprintf("output %d of %d (relaxed): %v", j+1, len(res.outs), err))
+			return
+		}
+		if strictIn {
+			// The property is stated for relaxed validation. Strict results are recorded in the
+			// evidence only: pdfcpu writes every output with a PDF 1.7 header, and strict validation
+			// is version dependent (e.g. a standard Type1 font without FirstChar/Widths passes strict
+			// in a 1.4 input and fails strict in the 1.7 output of every operation).
+			if err := validateStrict(out, res.upw, res.opw); err != nil {
+				r.Count("strict-invalid-output:" + opName)
+				r.Sample(map[string]any{"strict-invalid-output": opName, "doc": input["doc"], "params": params, "error": trunc(err.Error())})
+			} else {
+				r.Count("strict-valid-output:" + opName)
+			}
+		}
+	}
+	if written > 0 {
+		r.OracleOK()
+	}
+}
+
+// treeMatrix: every operation that rebuilds a page tree, on pairs of documents whose pages
+// inherit MediaBox / CropBox / Rotate / Resources from page tree nodes at depth 1-3 (or carry
+// them partly themselves), with |b| > |a|, |b| < |a|, |b| = |a|.
+func treeMatrix(r *vh.Run, e *env, opsList []op) {
+	byName := map[string]op{}
+	for _, o := range opsList {
+		byName[o.name] = o
+	}
+	modes := []string{"node", "nodemixed", "node", ""}
+	nPairs := r.Pick(9, 60)
+	for i := 0; i < nPairs; i++ {
+		na := 1 + r.Rand.Intn(4)
+		nb := na
+		switch i % 3 {
+		case 0:
+			nb = na + 1 + r.Rand.Intn(4)
+		case 1:
+			na = nb + 1 + r.Rand.Intn(4)
+		}
+		oa := genOpts{forcePages: na, depth: 1 + (i/3)%3, inherit: modes[i%len(modes)], strict: true}
+		ob := genOpts{forcePages: nb, depth: 1 + (i/9+i)%3, inherit: modes[(i/2)%len(modes)], strict: true}
+		a, da := genDoc(r.Rand, oa)
+		b, db := genDoc(r.Rand, ob)
+		if validate(a, "", "") != nil || validate(b, "", "") != nil {
+			r.Count("matrix:input-invalid")
+			continue
+		}
+		strictIn := validateStrict(a, "", "") == nil && validateStrict(b, "", "") == nil
+		if strictIn {
+			r.Count("matrix:inputs-strict-valid")
+		}
+		desc := fmt.Sprintf("a: %d pages depth %d inherit %q [%s]; b: %d pages depth %d inherit %q [%s]", na, oa.depth, oa.inherit, strings.Join(da.desc, ","), nb, ob.depth, ob.inherit, strings.Join(db.desc, ","))
+		input := func() map[string]any {
+			return map[string]any{"doc": fmt.Sprintf("matrix-%d", i), "desc": desc, "pdf": hex.EncodeToString(a), "pdf2": hex.EncodeToString(b)}
+		}
+		dir, _ := os.MkdirTemp(e.tmp, "mx")
+		af, bf := filepath.Join(dir, "a.pdf"), filepath.Join(dir, "b.pdf")
+		os.WriteFile(af, a, 0o644)
+		os.WriteFile(bf, b, 0o644)
+		run := func(name, params string, f func() (*opResult, error)) {
+			var res *opResult
+			err := guard(func() error {
+				var e2 error
+				res, e2 = f()
+				return e2
+			})
+			if err != nil {
+				if strings.HasPrefix(err.Error(), "PANIC") {
+					in := input()
+					in["operation"], in["params"] = name, params
+					r.OracleFail("panic:"+name, in, err.Error())
+				} else {
+					r.Count("matrix-op-error:" + name)
+				}
+				return
+			}
+			checkOutputs(r, name, params, input(), res, strictIn)
+		}
+		zip := func(x, y []byte) func() (*opResult, error) {
+			return func() (*opResult, error) {
+				var w bytes.Buffer
+				if err := api.MergeCreateZip(bytes.NewReader(x), bytes.NewReader(y), &w, newConf()); err != nil {
+					return nil, err
+				}
+				return one(&w), nil
+			}
+		}
+		run("merge-zip", "a,b", zip(a, b))
+		run("merge-zip", "b,a", zip(b, a))
+		run("merge-zip-file", "a,b", func() (*opResult, error) {
+			out := filepath.Join(dir, "zip.pdf")
+			if err := api.MergeCreateZipFile(af, bf, out, newConf()); err != nil {
+				return nil, err
+			}
+			bb, err := os.ReadFile(out)
+			return &opResult{outs: [][]byte{bb}}, err
+		})
+		div := r.Rand.Intn(2) == 0
+		run("merge", fmt.Sprintf("a,b divider=%v", div), func() (*opResult, error) {
+			var w bytes.Buffer
+			if err := api.MergeRaw([]io.ReadSeeker{bytes.NewReader(a), bytes.NewReader(b)}, &w, div, newConf()); err != nil {
+				return nil, err
+			}
+			return one(&w), nil
+		})
+		run("merge-create-file", fmt.Sprintf("b,a divider=%v", div), func() (*opResult, error) {
+			out := filepath.Join(dir, "create.pdf")
+			if err := api.MergeCreateFile([]string{bf, af}, out, div, newConf()); err != nil {
+				return nil, err
+			}
+			bb, err := os.ReadFile(out)
+			return &opResult{outs: [][]byte{bb}}, err
+		})
+		run("merge-append", fmt.Sprintf("a += b divider=%v", div), func() (*opResult, error) {
+			out := filepath.Join(dir, "append.pdf")
+			os.WriteFile(out, a, 0o644)
+			if err := api.MergeAppendFile([]string{bf}, out, div, newConf()); err != nil {
+				return nil, err
+			}
+			bb, err := os.ReadFile(out)
+			return &opResult{outs: [][]byte{bb}}, err
+		})
+		span := 1 + r.Rand.Intn(2)
+		run("split-merge", fmt.Sprintf("b span=%d", span), func() (*opResult, error) {
+			ps, err := api.SplitRaw(bytes.NewReader(b), span, newConf())
+			if err != nil {
+				return nil, err
+			}
+			var rsc []io.ReadSeeker
+			res := &opResult{}
+			for _, p := range ps {
+				bb, err := io.ReadAll(p.Reader)
+				if err != nil {
+					return nil, err
+				}
+				res.outs = append(res.outs, bb)
+				rsc = append(rsc, bytes.NewReader(bb))
+			}
+			if len(rsc) < 2 {
+				return res, nil
+			}
+			var w bytes.Buffer
+			if err := api.MergeRaw(rsc, &w, false, newConf()); err != nil {
+				return nil, err
+			}
+			res.outs = append(res.outs, w.Bytes())
+			return res, nil
+		})
+		for _, name := range []string{"collect", "insertpages", "removepages", "trim", "nup", "booklet", "grid", "rotate", "resize", "optimize"} {
+			o := byName[name]
+			for _, d := range []struct {
+				doc []byte
+				n   int
+				tag string
+			}{{a, na, "a"}, {b, nb, "b"}} {
+				var params string
+				d := d
+				run(name, d.tag, func() (*opResult, error) {
+					res, p, err := o.run(r.Rand, d.doc, d.n, e)
+					params = p
+					_ = params
+					return res, err
+				})
+			}
+		}
+	}
+}
+
 func main() {
 	api.DisableConfigDir()
 	r := vh.Start("C21")
@@ -826,6 +1030,8 @@ func main() {
 		doc, di := genDoc(r.Rand, genOpts{allowHazards: false})
 		runOps(r, fmt.Sprintf("gen-%d", i), strings.Join(di.desc, ","), doc, e, opsList, r.Pick(8, 20), true)
 	}
+	treeMatrix(r, e, opsList)
+
 	files := corpusFiles()
 	budget := r.Pick(3<<20, 120<<20)
 	used := 0
